@@ -1,0 +1,59 @@
+//go:build verif
+
+package event
+
+import (
+	"sort"
+
+	"github.com/nspcc-dev/neo-go/pkg/core/state"
+	"github.com/nspcc-dev/neo-go/pkg/neorpc/result"
+	"github.com/nspcc-dev/neo-go/pkg/util"
+)
+
+// Synchronous entry points and handler-table enumeration of the listener for the external
+// conformance harness (/verif, family irproc: C34, C35, C38). They call exactly the code the
+// listening goroutines call for an event received from the chain.
+
+// VerifHandleNotary runs the notary request pipeline (preparation, parser lookup, parsing,
+// handler) for nr in the calling goroutine.
+func VerifHandleNotary(l Listener, nr *result.NotaryRequestEvent) {
+	l.(*listener).parseAndHandleNotary(nr)
+}
+
+// VerifHandleNotification runs the notification pipeline (parser lookup, parsing, handlers)
+// for ev in the calling goroutine.
+func VerifHandleNotification(l Listener, ev *state.ContainedNotificationEvent) {
+	l.(*listener).parseAndHandleNotification(ev)
+}
+
+// VerifKey identifies a registered parser/handler.
+type VerifKey struct {
+	Contract util.Uint160
+	Type     string
+}
+
+// VerifRegistered lists the keys of the registered notification handlers and notary handlers.
+func VerifRegistered(l Listener) (notifications, notary []VerifKey) {
+	ll := l.(*listener)
+	ll.mtx.RLock()
+	defer ll.mtx.RUnlock()
+	for k, hh := range ll.notificationHandlers {
+		if len(hh) > 0 {
+			notifications = append(notifications, VerifKey{k.ScriptHash(), k.GetType().String()})
+		}
+	}
+	for k := range ll.notaryHandlers {
+		notary = append(notary, VerifKey{k.ScriptHash(), k.RequestType().String()})
+	}
+	less := func(s []VerifKey) func(i, j int) bool {
+		return func(i, j int) bool {
+			if s[i].Contract != s[j].Contract {
+				return s[i].Contract.Less(s[j].Contract)
+			}
+			return s[i].Type < s[j].Type
+		}
+	}
+	sort.Slice(notifications, less(notifications))
+	sort.Slice(notary, less(notary))
+	return
+}
